@@ -238,33 +238,47 @@ Record obs := {
   o_dsame : bool;                    (* the digest of all hub tables is the same before and after *)
   o_api : Z;                         (* the room API request waiting for a dialout response: 0 still waiting / none,
                                         HTTP status when it completed, -1 connection closed without reply *)
-  o_off : Z                          (* how many messages the frame added to the queue of the session without connection
+  o_off : Z;                         (* how many messages the frame added to the queue of the session without connection
                                         (that queue is not part of the digest compared in o_dsame) *)
+  o_live : bool                      (* after the frame the server still serves: a request of the bystander that needs the
+                                        session table was processed, a new connection got its welcome message, its first
+                                        message was answered and it was let go again, and the hub's tables could be read -
+                                        each within a bound (10 s; cut short when a new connection is not
+                                        greeted for a second and the hub's lock cannot be taken at any of 100 attempts in the next
+                                        half second).  Observed directly, like o_alive: false = the process
+                                        is there but somebody holds a lock of the hub for ever.  When false the other
+                                        observations after the bystander's messages could not be made any more. *)
 }.
-Definition mkobs (alive : bool) (replies : list reply) (closed : bool) (by_ : list bmsg) (by_ok dsame : bool) (api off : Z) : obs :=
+Definition mkobs (alive : bool) (replies : list reply) (closed : bool) (by_ : list bmsg) (by_ok dsame : bool) (api off : Z) (live : bool) : obs :=
   {| o_alive := alive; o_replies := replies; o_closed := closed; o_by := by_; o_by_ok := by_ok; o_dsame := dsame; o_api := api;
-     o_off := off |}.
+     o_off := off; o_live := live |}.
 
 (* ---- session states of the harness ----------------------------------------------------------
    0 no hello yet; 1 authenticated client, not in a room; 2 client in the room of the
    bystander; 3 internal client in that room; 4 internal client (dialout feature, not
    in a room) with a pending dialout whose message id is written "@PID@"; 5 a client
    in the room whose session was resumed on a new connection; 6 a client whose session
-   joined a federated room.  The hub has a media server in all of them, and in all of them
+   joined a federated room; 8 a client in the room whose permissions do not include "control"
+   (the model does not know permissions: same state as 2).  The senders' own public session id
+   is written "@SID@"; the clients among them are sessions of user "user1".  The hub has a media server in all of them, and in all of them
    the room of the bystander has a second member, of user "user9", whose connection was
    interrupted (the session "@OID@" is kept to be resumed; it is in the call, the bystander
    and the senders are not). *)
 Definition pending_id : string := "@PID@".
 Definition offline_id : string := "@OID@".
 Definition offline_user : string := "user9".
+Definition self_id : string := "@SID@".        (* the sender's own public session id, as the cases files write it *)
+Definition self_user : string := "user1".      (* the user of the senders that are clients *)
 Definition state_of (tag : N) : session_state :=
   let mk k fed pend inroom :=
     {| ss_kind := k; ss_federated := fed; ss_pending := pend; ss_mcu := true; ss_inroom := inroom;
+       ss_self := match k with SNone => "" | _ => self_id end;
+       ss_self_user := match k with SClient => self_user | _ => "" end;
        ss_offline := [offline_id]; ss_offline_users := [offline_user]; ss_offline_room := inroom; ss_offline_call := inroom |} in
   match tag with
   | 0%N => mk SNone false [] false
   | 1%N => mk SClient false [] false
-  | 2%N | 5%N => mk SClient false [] true
+  | 2%N | 5%N | 8%N => mk SClient false [] true
   | 3%N => mk SInternal false [] true
   | 4%N => mk SInternal false [pending_id] false
   | _ => mk SClient true [] false
@@ -276,8 +290,8 @@ Definition is_error (r : reply) : bool := match r with RError _ _ => true | _ =>
 
 (* input that must have no effect: it fails validation, or it is anything but a
    hello on a connection without session *)
-Definition tag_inroom (tag : N) : bool := N.eqb tag 2 || N.eqb tag 3 || N.eqb tag 5.
-Definition tag_local_session (tag : N) : bool := negb (N.eqb tag 0) && N.leb tag 5.   (* a session, not federated *)
+Definition tag_inroom (tag : N) : bool := N.eqb tag 2 || N.eqb tag 3 || N.eqb tag 5 || N.eqb tag 8.
+Definition tag_local_session (tag : N) : bool := negb (N.eqb tag 0) && (N.leb tag 5 || N.eqb tag 8).   (* a session, not federated *)
 Definition must_be_inert (sdp_ok : string -> bool) (tag : N) (i : input) : bool :=
   match i with
   | IOversize => false
@@ -320,12 +334,14 @@ Definition by_allowed_opaque (tag : N) (b : bmsg) : bool :=
   match b with BMessage s | BControl s => s | BOther => false | _ => true end.
 
 Definition P_opaque (tag : N) (o : obs) : bool :=
-  o_alive o && forallb reply_wf (o_replies o) && o_by_ok o &&
+  o_alive o && o_live o && forallb reply_wf (o_replies o) && o_by_ok o &&
   forallb (by_allowed_opaque tag) (o_by o) && negb (Z.eqb (o_api o) (-1)) &&
   (Z.eqb (o_off o) 0 || negb (N.eqb tag 0)).
 
+(* "the server process keeps running ... and other sessions keep working": whatever the frame was,
+   the process is alive AND still serves (o_live) *)
 Definition P_one (sdp_ok : string -> bool) (tag : N) (i : input) (o : obs) : bool :=
-  o_alive o && forallb reply_wf (o_replies o) && o_by_ok o &&
+  o_alive o && o_live o && forallb reply_wf (o_replies o) && o_by_ok o &&
   forallb (by_allowed tag i) (o_by o) &&
   negb (Z.eqb (o_api o) (-1)) &&
   (Z.eqb (o_off o) 0 || off_allowed tag i) &&
@@ -476,6 +492,8 @@ Definition off_expected (cs : list call) (n : Z) : bool :=
   end.
 
 Definition agrees (v : verdict) (i : input) (o : obs) : bool :=
+  (* no outcome of the model leaves the hub blocked: every handler returns with the locks it took released *)
+  (match v with VPanic => true | _ => o_live o end) &&
   match v with
   | VTooLarge => o_alive o && o_closed o && match o_replies o with [] => true | _ => false end
   | VDecodeError => o_alive o && replies_eqb (o_replies o) [RError "invalid_format" ""] && silent o
